@@ -147,6 +147,7 @@ bool World::app_action_enabled() const {
     const Action& a = sc.script[script_pos];
     if (a.k == Action::BARRIER) return all_user_ops_done();
     if (a.k == Action::WAIT_HS) return broker->handshakes_ok >= a.n;
+    if (a.k == Action::BWAIT) { for (auto& kv : broker->sessions) for (auto& m : kv.second.out) if (m.qos > 0 && m.st != bkr::OutMsg::DONE) return false; return true; }   // the broker's outbound exchanges are settled
     return true;
 }
 
@@ -248,7 +249,7 @@ void World::apply(const Event& e) {
 }
 
 static std::string action_str(const Action& a) {
-    static const char* n[] = {"RUN", "PUB", "SUB", "UNSUB", "RECV", "DISC", "CANCEL", "DESTROY", "MOVE_ASSIGN", "SIGNAL", "BARRIER", "WAIT_HS", "BPUB", "REAUTH", "MARK_STOP", "RERUN_CHECK", "KILLCONN", "BRAW", "PUBMANY", "NOP"};
+    static const char* n[] = {"RUN", "PUB", "SUB", "UNSUB", "RECV", "DISC", "CANCEL", "DESTROY", "MOVE_ASSIGN", "SIGNAL", "BARRIER", "WAIT_HS", "BPUB", "REAUTH", "MARK_STOP", "RERUN_CHECK", "KILLCONN", "BRAW", "PUBMANY", "BWAIT", "NOP"};
     std::string s = n[a.k]; if (a.k == Action::PUB || a.k == Action::BPUB) s += " q" + std::to_string(a.qos) + " tag" + std::to_string(a.tag); if (a.k == Action::SIGNAL) s += " op" + std::to_string(a.target_op) + " type" + std::to_string(a.sig_type);
     return s;
 }
@@ -293,7 +294,7 @@ void World::initiate(const Action& a) {
 
 void World::do_action(const Action& a, bool from_handler) {
     tr(std::string(from_handler ? "app(in handler): " : "app: ") + action_str(a));
-    if (!client || (!client->alive() && a.k != Action::BPUB && a.k != Action::BARRIER && a.k != Action::NOP && a.k != Action::KILLCONN && a.k != Action::BRAW)) return;
+    if (!client || (!client->alive() && a.k != Action::BPUB && a.k != Action::BARRIER && a.k != Action::NOP && a.k != Action::KILLCONN && a.k != Action::BRAW && a.k != Action::BWAIT)) return;
     switch (a.k) {
     case Action::RUN: if (running) { tr("  (skipped: client is already running)"); break; } running = true; net->stop_marker = false; stopped_phase = false; initiate(a); break;
     case Action::DISC: running = false; stop_times.push_back(now()); stop_seqs.push_back(net->op_seq); initiate(a); break;
@@ -337,7 +338,7 @@ void World::run(const std::vector<int>& prefix) {
         // actions scheduled after the injection behave like further script actions (default order: after network events)
         bool script_done = script_pos >= sc.script.size();
         // a WAIT_HS that can no longer be satisfied (nothing outstanding, network quiet) ends the script
-        if (!script_done && sc.script[script_pos].k == Action::WAIT_HS && !app_action_enabled() && all_user_ops_done()) { bool net_def = false; for (auto& e : ev) if (!e.deviation && e.k != Event::TIME && e.k != Event::APP) net_def = true; if (!net_def) script_done = true; }
+        if (!script_done && (sc.script[script_pos].k == Action::WAIT_HS) && !app_action_enabled() && all_user_ops_done()) { bool net_def = false; for (auto& e : ev) if (!e.deviation && e.k != Event::TIME && e.k != Event::APP) net_def = true; if (!net_def) script_done = true; }
         bool has_net_default = false; for (auto& e : ev) if (!e.deviation && e.k != Event::TIME && e.k != Event::APP) has_net_default = true;
         if (injected && extra_pos < sc.after_inject.size() && script_done && !has_net_default && (!sc.inject || sc.inject->k != Action::DISC || !ops.empty() && [&]{ for (auto& o : ops) if (o.kind == Action::DISC && o.completions == 0) return false; return true; }())) { if (stopped_phase && !stop_snap.done) take_stop_snapshot("after stop"); step_no++; do_action(sc.after_inject[extra_pos++], false); drain(); continue; }
         bool broker_pending = false;   // the broker still waits for an acknowledgement of something it sent (C04 scenarios)
